@@ -222,7 +222,7 @@ impl Engine for FlightEngine {
     }
 
     fn rule(&self, _focus: &str) -> String {
-        "Each run: 1-8 callers over 1-3 keys with seeded arrival times and task durations, tasks that succeed with a unique token, fail with a unique message, or panic. Two execution modes: (single-threaded) a paused-clock current-thread runtime where at each of the five guarded yield points inside Group::work the schedule stream decides whether the caller yields or sleeps; (multi-threaded, one run in three) every caller is an OS thread with its own runtime under the cooperative one-thread-at-a-time scheduler, which switches at those yield points, at lock-aware points inside Call::{get_future,complete} that are live only where the result lock is not held, and whenever a caller's future is pending; in one multi-threaded run in three one caller's runtime is shut down at the 1st..4th time its call is found pending (the call and, for an owner, its spawned task are dropped: every other caller must still return, with the dropped-owner notification at worst); a run in which every remaining caller stays pending is a hang; one run in 40 000 is a single flight joined by 65 535 … 131 072 callers at once; in one single-threaded run in five one caller's task is aborted around its call (no hook-only yields in such runs): the others must still get the flight's real outcome, since the spawned owner task lives on. Non-trivial: at least one caller received another caller's outcome (a waiter overlapped a flight) and at least one schedule decision fired. Distinct: hash of the per-caller (invoke, return, task start) event numbers, key and outcome kind.".into()
+        "Each run: 1-8 callers over 1-3 keys with seeded arrival times and task durations (milliseconds, and in two plans of ten minutes to an hour of simulated time), tasks that succeed with a unique token, fail with a unique message, or panic. Two execution modes: (single-threaded) a paused-clock current-thread runtime where at each of the five guarded yield points inside Group::work the schedule stream decides whether the caller yields or sleeps; (multi-threaded, one run in three) every caller is an OS thread with its own runtime under the cooperative one-thread-at-a-time scheduler, which switches at those yield points, at lock-aware points inside Call::{get_future,complete} that are live only where the result lock is not held, and whenever a caller's future is pending; in one multi-threaded run in three one caller's runtime is shut down at the 1st..4th time its call is found pending (the call and, for an owner, its spawned task are dropped: every other caller must still return, with the dropped-owner notification at worst); a run in which every remaining caller stays pending is a hang; one run in 40 000 is a single flight joined by 65 535 … 131 072 callers at once; in one single-threaded run in five one caller's task is aborted around its call (no hook-only yields in such runs): the others must still get the flight's real outcome, since the spawned owner task lives on. Non-trivial: at least one caller received another caller's outcome (a waiter overlapped a flight) and at least one schedule decision fired. Distinct: hash of the per-caller (invoke, return, task start) event numbers, key and outcome kind.".into()
     }
     fn real_vs_stub(&self) -> Value {
         json!({"real": ["utils::singleflight::{Group, Call, OwnerTask}", "tokio Mutex/Notify/JoinHandle, parking_lot RwLock"], "simulated": ["arrival times, task durations (paused clock)", "scheduling between lock sections (H5 yield points)", "multi-threaded mode: OS-thread interleaving at H5 points, lock-aware points and pending polls", "shutdown of a caller's runtime mid-call"], "limit": "interleavings at lock-section granularity plus wherever a lock-aware point finds the result lock free; not at atomic-instruction granularity"})
